@@ -392,6 +392,67 @@ def r7(p, rep):
         rep.add("C06.R7", f"{c.qualname}:hash-subset-of-eq", f"{c.module.rel}:{h.node.lineno}", not extra, f"__hash__ uses {sorted(used)}, all compared by __eq__" if not extra else f"__hash__ uses {sorted(extra)}, which __eq__ ignores: two equal objects land in different hash buckets, so a set / dict of them keeps both (e.g. the set of candidate output expressions no longer collapses equal inputs and 'b... c, b... c' is rejected as ambiguous)")
 
 
+def _constructs_objects(p, g, depth=0, seen=None):
+    """does project function g (transitively, depth <= 3) build instances of project classes (tree nodes, tracers)?"""
+    seen = seen if seen is not None else set()
+    if g.qualname in seen or depth > 3:
+        return False
+    seen.add(g.qualname)
+    for c in ast.walk(g.node):
+        if not isinstance(c, ast.Call):
+            continue
+        r = resolve_callee(p, c, g.module)
+        if r and r[0] == "class":
+            return True
+        if isinstance(c.func, ast.Attribute) and c.func.attr in ("create", "__deepcopy__"):
+            return True
+        if r and r[0] == "func" and _constructs_objects(p, r[1], depth + 1, seen):
+            return True
+    return False
+
+
+def r8(p, rep):
+    rep.rule("C06.R8", "functools caches are only put on functions whose results have no identity of their own: a memoised function that builds expression-tree / tracer objects hands ONE object to unrelated callers (the solvers key by id())", "T-EFF (who is memoised) + construction reachability", floor=2)
+    owner = p.module("util.lru_cache")
+
+    def is_memo(e, m, scope):
+        r = p.resolve_expr(m, e.func if isinstance(e, ast.Call) else e, scope)
+        return bool(r and r[0] == "external" and r[1] in ("functools.cache", "functools.lru_cache"))
+
+    for m in p.modules.values():
+        if any(m.name == x for x in common.OFF_PATH_MODULES):
+            continue
+        sites = []  # (node, memoised expression)
+        for n in ast.walk(m.tree):
+            if isinstance(n, (ast.FunctionDef, ast.AsyncFunctionDef)):
+                for d in n.decorator_list:
+                    if is_memo(d, m, None):
+                        sites.append((d, n))
+            elif isinstance(n, ast.Call):
+                # functools.cache(f)   /   functools.lru_cache(maxsize=..)(f)
+                if is_memo(n, m, None) and n.args and not n.keywords and not isinstance(getattr(n, "_parent", None), ast.Call):
+                    sites.append((n, n.args[0]))
+                elif isinstance(n.func, ast.Call) and is_memo(n.func, m, None) and n.args:
+                    sites.append((n, n.args[0]))
+        for node, target in sites:
+            key = f"{m.name}:memo:{target.name if isinstance(target, ast.FunctionDef) else norm(target)[:40]}"
+            site = f"{m.rel}:{node.lineno}"
+            if m is owner:
+                rep.ok("C06.R8", key, site, "the compilation cache itself (keyed by the frozen arguments; its value is the compiled function)")
+                continue
+            g = None
+            if isinstance(target, ast.FunctionDef):
+                g = next((f for f in p.funcs.values() if f.node is target), None)
+            else:
+                r = p.resolve_expr(m, target, None)
+                if r and r[0] == "func":
+                    g = r[1]
+            if g is not None and _constructs_objects(p, g):
+                rep.violation("C06.R8", key, site, f"`{g.qualname.split('::')[1]}` is memoised but builds objects (expression nodes / tracers): equal arguments now share ONE object, within a call (two constraints with the same text get the same node, so the depth solver ties them: RankError for ds=2, g=2) and across calls")
+            else:
+                rep.ok("C06.R8", key, site, "memoised function does not construct project objects (or cannot be resolved)", nontrivial=g is not None)
+
+
 def run(p, rep, tier):
     rep.rule("C06.R1", "cache-key classes compare and hash everything they hold", "T-SIB (__init__ vs __eq__ vs __hash__)", floor=30)
     r1(p, rep)
@@ -404,6 +465,7 @@ def run(p, rep, tier):
     r5(p, rep)
     r6(p, rep)
     r7(p, rep)
+    r8(p, rep)
     from . import c11
 
     c11.r3(p, rep)  # a name table that is rebound when a lazily registered factory runs makes lookups depend on history
